@@ -196,6 +196,9 @@ func (h *harness) runCaseWith(cs *caseSpec, bm *builtMethod) *builtMethod {
 	case 2:
 		set.Runtime = runtimeLimit
 		led.sleepAt, led.sleepDur = cs.s.sleepAt, runtimeSleep
+		if cs.s.concurrent > 1 {
+			led.idle = time.Millisecond
+		}
 	case 3:
 		set.Runtime = time.Hour
 	}
@@ -539,7 +542,7 @@ func (h *harness) judge(cs *caseSpec, led *ledger, bm *builtMethod, tr *trace, c
 		if rec.initN != 1 || len(rec.ops) == 0 || rec.ops[0] != optimize.InitIteration {
 			h.viol(cs, out, "recorder-init", fmt.Sprintf("Recorder.Init calls=%d, first record=%v", rec.initN, rec.ops))
 		}
-		if err == nil && rec.ops[len(rec.ops)-1] != optimize.PostIteration {
+		if err == nil && rec.lastOp != optimize.PostIteration {
 			h.viol(cs, out, "recorder-no-PostIteration", "run ended without error but the last record is not PostIteration")
 		}
 	}
@@ -652,12 +655,17 @@ afterCoherence:
 			if cs.m.kind == mCMA {
 				slack += cs.m.effPop(o.dim)
 			}
+			// Only ledger facts decide: Func calls that STARTED after the
+			// blocking call had RETURNED. Whatever happened while that call
+			// was blocked (other workers reaching an evaluation limit, a
+			// list being exhausted, a method converging) is legitimate.
 			if n := int(led.startedAfter.Load()); n > slack {
-				h.viol(cs, out, "evaluations-after-Runtime-expired", fmt.Sprintf("%d Func calls were started after an evaluation had made the run exceed Settings.Runtime=%v (slack %d with %d tasks); status %v", n, runtimeLimit, slack, eff, res.Status))
+				clause := "evaluations-after-Runtime-expired"
+				if res.Status != optimize.RuntimeLimit {
+					clause = "RuntimeLimit-not-reported"
+				}
+				h.viol(cs, out, clause, fmt.Sprintf("%d Func calls were started after an evaluation that blocked for %v had returned, i.e. after the run had exceeded Settings.Runtime=%v for certain (slack %d with %d tasks); status %v after %d Func calls", n, runtimeSleep, runtimeLimit, slack, eff, res.Status, nF))
 			}
-		}
-		if !serial && cs.group == "runtime" && res.Status != optimize.RuntimeLimit && res.Status != optimize.MethodConverge {
-			h.viol(cs, out, "RuntimeLimit-not-reported", fmt.Sprintf("the run exceeded Settings.Runtime=%v for certain after Func call %d and no other stopping rule was configured (NeverTerminate, FuncEvaluations=%d as a safety net), but the status is %v after %d Func calls", runtimeLimit, cs.s.sleepAt, cs.s.limF, res.Status, nF))
 		}
 	}
 
